@@ -59,9 +59,10 @@ import (
 // Value is the content of a response.  Its index in Input.Values is its identity, except for the
 // block-root strategies where the identity is the root itself.
 type Value struct {
-	Nil       bool   `json:"nil,omitempty"`       // response without data
+	Nil       bool   `json:"nil,omitempty"`        // response without data
 	NilTarget bool   `json:"nil_target,omitempty"` // attestation data without target
-	Source    uint64 `json:"source,omitempty"`    // attestation data
+	SlotOff   int64  `json:"slot_off,omitempty"`   // attestation data: the slot the data carries is Input.Slot+SlotOff (a node answering for another slot)
+	Source    uint64 `json:"source,omitempty"`     // attestation data
 	Target    uint64 `json:"target,omitempty"`
 	Root      uint64 `json:"root,omitempty"` // attestation data: head root id; root strategies: the root id
 	Set       uint64 `json:"set,omitempty"`  // aggregate / contribution: bits set
@@ -90,8 +91,17 @@ type Input struct {
 	Cache     [][2]uint64 `json:"cache,omitempty"` // root id -> slot
 	Values    []Value     `json:"values"`
 	Provs     []Prov      `json:"provs"`
-	Trace     bool        `json:"trace,omitempty"` // run the strategy at trace log level
-	Tags      []string    `json:"tags,omitempty"`
+	Trace     bool        `json:"trace,omitempty"`   // run the strategy at trace log level
+	NowOff    int64       `json:"now_off,omitempty"` // the chain time's current slot is Slot+NowOff (the duty slot is not "now")
+	Warm      bool        `json:"warm,omitempty"`    // the same service instance has served another request before (every node answering at once)
+	// Prior: earlier calls made, in this order, on the SAME service instance before this one (same
+	// strategy, timeout, threshold, cache and number of nodes; own slot, contents and node behaviours).
+	// Every call is compared with the model of an independent call: the strategies keep nothing
+	// from one call to the next.  Gap: fake ns between the previous call's return and this call
+	// (0: back to back, the previous call's stragglers are still running).
+	Prior []Input  `json:"prior,omitempty"`
+	Gap   int64    `json:"gap,omitempty"`
+	Tags  []string `json:"tags,omitempty"`
 }
 
 type Observed struct {
@@ -160,13 +170,16 @@ func rootID(root phase0.Root) uint64 {
 	return r
 }
 
+// attSlot is the slot the attestation data of a value carries.
+func attSlot(in *Input, v Value) uint64 { return uint64(int64(in.Slot) + v.SlotOff) }
+
 func buildAtt(in *Input, vid int) *phase0.AttestationData {
 	v := in.Values[vid]
 	if v.Nil {
 		return nil
 	}
 	d := &phase0.AttestationData{
-		Slot:            phase0.Slot(in.Slot),
+		Slot:            phase0.Slot(attSlot(in, v)),
 		Index:           phase0.CommitteeIndex(vid),
 		BeaconBlockRoot: rootOf(v.Root),
 		Source:          &phase0.Checkpoint{Epoch: phase0.Epoch(v.Source), Root: rootOf(5000 + v.Source)},
@@ -355,18 +368,44 @@ func valID(in *Input, id uint64, got, want func(int) any) (uint64, string) {
 // ---------------------------------------------------------------------------------------------
 // Scripted provider.
 
+// One script per node for the life of the service instance; what it does depends on which call of
+// the sequence (Input.Prior..., Input) is current when the node is asked.
 type script struct {
-	in    *Input
+	seq   []*Input // the calls made on the instance, in order
 	idx   int
-	calls atomic.Int32
+	cur   atomic.Int32   // index of the current call
+	calls []atomic.Int32 // how often the node was asked during each call
+	warm  atomic.Bool    // warm-up request: every node answers at once (see Input.Warm)
 }
 
 func (s *script) name() string { return fmt.Sprintf("node-%d", s.idx) }
 
-// wait returns nil when the node answers with content, or the error it answers with.
-func (s *script) wait(ctx context.Context) error {
-	s.calls.Add(1)
-	p := s.in.Provs[s.idx]
+// wait returns the call the node was asked in, and nil when the node answers with content, or the
+// error it answers with.
+func (s *script) wait(ctx context.Context) (*Input, error) {
+	// which call of the sequence the request belongs to travels in the caller's context (a call
+	// may return, and the next one start, before every goroutine of the strategy has asked its node)
+	k, ok := ctx.Value(callKey{}).(int32)
+	if !ok {
+		k = s.cur.Load()
+	}
+	in := s.seq[k]
+	s.calls[k].Add(1)
+	return in, s.wait1(ctx, in)
+}
+
+type callKey struct{}
+
+func (s *script) wait1(ctx context.Context, in *Input) error {
+	p := in.Provs[s.idx]
+	if s.warm.Load() {
+		// the request served before the observed one: nodes with content give it at once; for the
+		// "first" strategies (response channel of capacity 1) only the first such node does
+		if p.Beh == "respond" && (template(in.Strategy) != "first" || s.idx == firstResponder(in)) {
+			return nil
+		}
+		return errors.New("scripted failure (warm-up)")
+	}
 	if p.Beh == "never" {
 		<-ctx.Done()
 		return ctx.Err()
@@ -404,56 +443,72 @@ func (s *script) wait(ctx context.Context) error {
 	return nil
 }
 
+func firstResponder(in *Input) int {
+	for i, p := range in.Provs {
+		if p.Beh == "respond" {
+			return i
+		}
+	}
+	return -1
+}
+
 func meta() map[string]any { return map[string]any{} }
 
 func (s *script) AttestationData(ctx context.Context, _ *api.AttestationDataOpts) (*api.Response[*phase0.AttestationData], error) {
-	if err := s.wait(ctx); err != nil {
+	in, err := s.wait(ctx)
+	if err != nil {
 		return nil, err
 	}
-	return &api.Response[*phase0.AttestationData]{Data: buildAtt(s.in, s.in.Provs[s.idx].Val), Metadata: meta()}, nil
+	return &api.Response[*phase0.AttestationData]{Data: buildAtt(in, in.Provs[s.idx].Val), Metadata: meta()}, nil
 }
 
 func (s *script) AggregateAttestation(ctx context.Context, _ *api.AggregateAttestationOpts) (*api.Response[*phase0.Attestation], error) {
-	if err := s.wait(ctx); err != nil {
+	in, err := s.wait(ctx)
+	if err != nil {
 		return nil, err
 	}
-	return &api.Response[*phase0.Attestation]{Data: buildAgg(s.in, s.in.Provs[s.idx].Val), Metadata: meta()}, nil
+	return &api.Response[*phase0.Attestation]{Data: buildAgg(in, in.Provs[s.idx].Val), Metadata: meta()}, nil
 }
 
 func (s *script) Proposal(ctx context.Context, _ *api.ProposalOpts) (*api.Response[*api.VersionedProposal], error) {
-	if err := s.wait(ctx); err != nil {
+	in, err := s.wait(ctx)
+	if err != nil {
 		return nil, err
 	}
-	return &api.Response[*api.VersionedProposal]{Data: buildProp(s.in, s.in.Provs[s.idx].Val), Metadata: meta()}, nil
+	return &api.Response[*api.VersionedProposal]{Data: buildProp(in, in.Provs[s.idx].Val), Metadata: meta()}, nil
 }
 
 func (s *script) SyncCommitteeContribution(ctx context.Context, _ *api.SyncCommitteeContributionOpts) (*api.Response[*altair.SyncCommitteeContribution], error) {
-	if err := s.wait(ctx); err != nil {
+	in, err := s.wait(ctx)
+	if err != nil {
 		return nil, err
 	}
-	return &api.Response[*altair.SyncCommitteeContribution]{Data: buildContrib(s.in, s.in.Provs[s.idx].Val), Metadata: meta()}, nil
+	return &api.Response[*altair.SyncCommitteeContribution]{Data: buildContrib(in, in.Provs[s.idx].Val), Metadata: meta()}, nil
 }
 
 func (s *script) BeaconBlockRoot(ctx context.Context, _ *api.BeaconBlockRootOpts) (*api.Response[*phase0.Root], error) {
-	if err := s.wait(ctx); err != nil {
+	in, err := s.wait(ctx)
+	if err != nil {
 		return nil, err
 	}
-	root := rootOf(s.in.Values[s.in.Provs[s.idx].Val].Root)
+	root := rootOf(in.Values[in.Provs[s.idx].Val].Root)
 	return &api.Response[*phase0.Root]{Data: &root, Metadata: meta()}, nil
 }
 
 func (s *script) BeaconBlockHeader(ctx context.Context, _ *api.BeaconBlockHeaderOpts) (*api.Response[*apiv1.BeaconBlockHeader], error) {
-	if err := s.wait(ctx); err != nil {
+	in, err := s.wait(ctx)
+	if err != nil {
 		return nil, err
 	}
-	return &api.Response[*apiv1.BeaconBlockHeader]{Data: buildHeader(s.in, s.in.Provs[s.idx].Val), Metadata: meta()}, nil
+	return &api.Response[*apiv1.BeaconBlockHeader]{Data: buildHeader(in, in.Provs[s.idx].Val), Metadata: meta()}, nil
 }
 
 func (s *script) SignedBeaconBlock(ctx context.Context, _ *api.SignedBeaconBlockOpts) (*api.Response[*spec.VersionedSignedBeaconBlock], error) {
-	if err := s.wait(ctx); err != nil {
+	in, err := s.wait(ctx)
+	if err != nil {
 		return nil, err
 	}
-	return &api.Response[*spec.VersionedSignedBeaconBlock]{Data: buildBlock(s.in, s.in.Provs[s.idx].Val), Metadata: meta()}, nil
+	return &api.Response[*spec.VersionedSignedBeaconBlock]{Data: buildBlock(in, in.Provs[s.idx].Val), Metadata: meta()}, nil
 }
 
 // map-backed blockRootToSlotCache
@@ -477,35 +532,60 @@ func provMap[T any](scripts []*script, conv func(*script) T) map[string]T {
 // ---------------------------------------------------------------------------------------------
 // One case: the real constructor, the real call, inside a bubble.
 
-func call(ctx context.Context, in *Input, scripts []*script) (obs Observed) {
+// rec collects what one call returned.
+type rec struct {
+	obs   Observed
+	start time.Time
+}
+
+func (r *rec) finish(err error, isNil bool) bool {
+	r.obs.Time = int64(time.Since(r.start))
+	if err != nil {
+		r.obs.Res = "err"
+		return true
+	}
+	if isNil {
+		r.obs.Res = "nil"
+		return true
+	}
+	return false
+}
+
+func (r *rec) done(id uint64, note string) {
+	r.obs.Res, r.obs.ID, r.obs.Note = "val", id, note
+}
+
+// newInvoker builds the real service once (public constructor, the scripted nodes as providers)
+// and returns the function that makes one call on it.
+func newInvoker(ctx context.Context, in *Input, scripts []*script, ct *mocks.ChainTime) (invoke func(ctx context.Context, in *Input) Observed, bad *Observed) {
 	level := zerolog.Disabled
 	if in.Trace {
 		level = zerolog.TraceLevel
 	}
 	mon := nullmetrics.New()
 	T := time.Duration(in.Timeout)
-	ct := mocks.NewChainTime(in.SPE)
-	ct.SetSlot(in.Slot)
 	cache := rootCache{}
 	for _, e := range in.Cache {
 		cache[rootOf(e[0])] = phase0.Slot(e[1])
 	}
-	fail := func(err error) Observed { return Observed{Res: "panic", Note: "constructor: " + err.Error()} }
-	done := func(id uint64, note string) {
-		obs.Res, obs.ID, obs.Note = "val", id, note
+	fail := func(err error) (func(ctx context.Context, in *Input) Observed, *Observed) {
+		return nil, &Observed{Res: "panic", Note: "constructor: " + err.Error()}
 	}
-	var start time.Time
-	finish := func(err error, isNil bool) bool {
-		obs.Time = int64(time.Since(start))
-		if err != nil {
-			obs.Res = "err"
-			return true
+	// Input.Warm: the service instance first serves another request (same options, every node
+	// answering at once); whatever it keeps from it must not show in the observed request
+	warmup := func(in *Input, f func()) {
+		if !in.Warm {
+			return
 		}
-		if isNil {
-			obs.Res = "nil"
-			return true
+		for _, s := range scripts {
+			s.warm.Store(true)
 		}
-		return false
+		f()
+		synctest.Wait()
+		for _, s := range scripts {
+			s.warm.Store(false)
+			s.calls[s.cur.Load()].Store(0) // the warm-up request is made while its call is the current one
+		}
 	}
 
 	switch in.Strategy {
@@ -527,12 +607,19 @@ func call(ctx context.Context, in *Input, scripts []*script) (obs Observed) {
 		if err != nil {
 			return fail(err)
 		}
-		start = time.Now()
-		resp, err := svc.AttestationData(ctx, &api.AttestationDataOpts{Slot: phase0.Slot(in.Slot), CommitteeIndex: 3})
-		if finish(err, err == nil && (resp == nil || resp.Data == nil)) {
-			return obs
+		invoke = func(ctx context.Context, in *Input) Observed {
+			var r rec
+			warmup(in, func() {
+				_, _ = svc.AttestationData(ctx, &api.AttestationDataOpts{Slot: phase0.Slot(in.Slot), CommitteeIndex: 3})
+			})
+			r.start = time.Now()
+			resp, err := svc.AttestationData(ctx, &api.AttestationDataOpts{Slot: phase0.Slot(in.Slot), CommitteeIndex: 3})
+			if r.finish(err, err == nil && (resp == nil || resp.Data == nil)) {
+				return r.obs
+			}
+			r.done(valID(in, uint64(resp.Data.Index), func(int) any { return resp.Data }, func(i int) any { return buildAtt(in, i) }))
+			return r.obs
 		}
-		done(valID(in, uint64(resp.Data.Index), func(int) any { return resp.Data }, func(i int) any { return buildAtt(in, i) }))
 	case "AggBest", "AggFirst":
 		provs := provMap(scripts, func(s *script) eth2client.AggregateAttestationProvider { return s })
 		var svc eth2client.AggregateAttestationProvider
@@ -546,16 +633,23 @@ func call(ctx context.Context, in *Input, scripts []*script) (obs Observed) {
 		if err != nil {
 			return fail(err)
 		}
-		start = time.Now()
-		resp, err := svc.AggregateAttestation(ctx, &api.AggregateAttestationOpts{Slot: phase0.Slot(in.Slot), AttestationDataRoot: rootOf(9)})
-		if finish(err, err == nil && (resp == nil || resp.Data == nil)) {
-			return obs
+		invoke = func(ctx context.Context, in *Input) Observed {
+			var r rec
+			warmup(in, func() {
+				_, _ = svc.AggregateAttestation(ctx, &api.AggregateAttestationOpts{Slot: phase0.Slot(in.Slot), AttestationDataRoot: rootOf(9)})
+			})
+			r.start = time.Now()
+			resp, err := svc.AggregateAttestation(ctx, &api.AggregateAttestationOpts{Slot: phase0.Slot(in.Slot), AttestationDataRoot: rootOf(9)})
+			if r.finish(err, err == nil && (resp == nil || resp.Data == nil)) {
+				return r.obs
+			}
+			if resp.Data.Data == nil {
+				r.done(unknownID, "aggregate without data")
+				return r.obs
+			}
+			r.done(valID(in, uint64(resp.Data.Data.Index), func(int) any { return resp.Data }, func(i int) any { return buildAgg(in, i) }))
+			return r.obs
 		}
-		if resp.Data.Data == nil {
-			done(unknownID, "aggregate without data")
-			return obs
-		}
-		done(valID(in, uint64(resp.Data.Data.Index), func(int) any { return resp.Data }, func(i int) any { return buildAgg(in, i) }))
 	case "PropBest", "PropFirst":
 		provs := provMap(scripts, func(s *script) eth2client.ProposalProvider { return s })
 		var svc eth2client.ProposalProvider
@@ -571,17 +665,24 @@ func call(ctx context.Context, in *Input, scripts []*script) (obs Observed) {
 		if err != nil {
 			return fail(err)
 		}
-		start = time.Now()
-		resp, err := svc.Proposal(ctx, &api.ProposalOpts{Slot: phase0.Slot(in.Slot), Graffiti: [32]byte{'v', 'o', 'u', 'c', 'h'}})
-		if finish(err, err == nil && (resp == nil || resp.Data == nil)) {
-			return obs
+		invoke = func(ctx context.Context, in *Input) Observed {
+			var r rec
+			warmup(in, func() {
+				_, _ = svc.Proposal(ctx, &api.ProposalOpts{Slot: phase0.Slot(in.Slot), Graffiti: [32]byte{'v', 'o', 'u', 'c', 'h'}})
+			})
+			r.start = time.Now()
+			resp, err := svc.Proposal(ctx, &api.ProposalOpts{Slot: phase0.Slot(in.Slot), Graffiti: [32]byte{'v', 'o', 'u', 'c', 'h'}})
+			if r.finish(err, err == nil && (resp == nil || resp.Data == nil)) {
+				return r.obs
+			}
+			id, ok := propID(resp.Data)
+			if !ok {
+				r.done(unknownID, "proposal without block")
+				return r.obs
+			}
+			r.done(valID(in, id, func(int) any { return resp.Data }, func(i int) any { return buildProp(in, i) }))
+			return r.obs
 		}
-		id, ok := propID(resp.Data)
-		if !ok {
-			done(unknownID, "proposal without block")
-			return obs
-		}
-		done(valID(in, id, func(int) any { return resp.Data }, func(i int) any { return buildProp(in, i) }))
 	case "ContribBest", "ContribFirst":
 		provs := provMap(scripts, func(s *script) eth2client.SyncCommitteeContributionProvider { return s })
 		var svc eth2client.SyncCommitteeContributionProvider
@@ -596,12 +697,19 @@ func call(ctx context.Context, in *Input, scripts []*script) (obs Observed) {
 		if err != nil {
 			return fail(err)
 		}
-		start = time.Now()
-		resp, err := svc.SyncCommitteeContribution(ctx, &api.SyncCommitteeContributionOpts{Slot: phase0.Slot(in.Slot), SubcommitteeIndex: 1, BeaconBlockRoot: rootOf(77)})
-		if finish(err, err == nil && (resp == nil || resp.Data == nil)) {
-			return obs
+		invoke = func(ctx context.Context, in *Input) Observed {
+			var r rec
+			warmup(in, func() {
+				_, _ = svc.SyncCommitteeContribution(ctx, &api.SyncCommitteeContributionOpts{Slot: phase0.Slot(in.Slot), SubcommitteeIndex: 1, BeaconBlockRoot: rootOf(77)})
+			})
+			r.start = time.Now()
+			resp, err := svc.SyncCommitteeContribution(ctx, &api.SyncCommitteeContributionOpts{Slot: phase0.Slot(in.Slot), SubcommitteeIndex: 1, BeaconBlockRoot: rootOf(77)})
+			if r.finish(err, err == nil && (resp == nil || resp.Data == nil)) {
+				return r.obs
+			}
+			r.done(valID(in, resp.Data.SubcommitteeIndex, func(int) any { return resp.Data }, func(i int) any { return buildContrib(in, i) }))
+			return r.obs
 		}
-		done(valID(in, resp.Data.SubcommitteeIndex, func(int) any { return resp.Data }, func(i int) any { return buildContrib(in, i) }))
 	case "RootFirst", "RootLatest", "RootMajority":
 		provs := provMap(scripts, func(s *script) eth2client.BeaconBlockRootProvider { return s })
 		var svc eth2client.BeaconBlockRootProvider
@@ -619,82 +727,151 @@ func call(ctx context.Context, in *Input, scripts []*script) (obs Observed) {
 		if err != nil {
 			return fail(err)
 		}
-		start = time.Now()
-		resp, err := svc.BeaconBlockRoot(ctx, &api.BeaconBlockRootOpts{Block: "head"})
-		if finish(err, err == nil && (resp == nil || resp.Data == nil)) {
-			return obs
+		invoke = func(ctx context.Context, in *Input) Observed {
+			var r rec
+			warmup(in, func() { _, _ = svc.BeaconBlockRoot(ctx, &api.BeaconBlockRootOpts{Block: "head"}) })
+			r.start = time.Now()
+			resp, err := svc.BeaconBlockRoot(ctx, &api.BeaconBlockRootOpts{Block: "head"})
+			if r.finish(err, err == nil && (resp == nil || resp.Data == nil)) {
+				return r.obs
+			}
+			// the identity of a root is the root: it must be one some value carries
+			id := rootID(*resp.Data)
+			if rootOf(id) != *resp.Data {
+				r.done(unknownID, "root outside the scripted range")
+				return r.obs
+			}
+			r.done(id, "")
+			return r.obs
 		}
-		// the identity of a root is the root: it must be one some value carries
-		id := rootID(*resp.Data)
-		if rootOf(id) != *resp.Data {
-			done(unknownID, "root outside the scripted range")
-			return obs
-		}
-		done(id, "")
 	case "HeaderFirst":
 		provs := provMap(scripts, func(s *script) eth2client.BeaconBlockHeadersProvider { return s })
 		svc, err := headerfirst.New(ctx, headerfirst.WithLogLevel(level), headerfirst.WithClientMonitor(mon), headerfirst.WithTimeout(T), headerfirst.WithBeaconBlockHeadersProviders(provs))
 		if err != nil {
 			return fail(err)
 		}
-		start = time.Now()
-		resp, err := svc.BeaconBlockHeader(ctx, &api.BeaconBlockHeaderOpts{Block: "head"})
-		if finish(err, err == nil && (resp == nil || resp.Data == nil)) {
-			return obs
+		invoke = func(ctx context.Context, in *Input) Observed {
+			var r rec
+			warmup(in, func() { _, _ = svc.BeaconBlockHeader(ctx, &api.BeaconBlockHeaderOpts{Block: "head"}) })
+			r.start = time.Now()
+			resp, err := svc.BeaconBlockHeader(ctx, &api.BeaconBlockHeaderOpts{Block: "head"})
+			if r.finish(err, err == nil && (resp == nil || resp.Data == nil)) {
+				return r.obs
+			}
+			r.done(valID(in, uint64(resp.Data.Header.Message.ProposerIndex), func(int) any { return resp.Data }, func(i int) any { return buildHeader(in, i) }))
+			return r.obs
 		}
-		done(valID(in, uint64(resp.Data.Header.Message.ProposerIndex), func(int) any { return resp.Data }, func(i int) any { return buildHeader(in, i) }))
 	case "BlockFirst":
 		provs := provMap(scripts, func(s *script) eth2client.SignedBeaconBlockProvider { return s })
 		svc, err := blockfirst.New(ctx, blockfirst.WithLogLevel(level), blockfirst.WithClientMonitor(mon), blockfirst.WithTimeout(T), blockfirst.WithSignedBeaconBlockProviders(provs))
 		if err != nil {
 			return fail(err)
 		}
-		start = time.Now()
-		resp, err := svc.SignedBeaconBlock(ctx, &api.SignedBeaconBlockOpts{Block: "head"})
-		if finish(err, err == nil && (resp == nil || resp.Data == nil)) {
-			return obs
+		invoke = func(ctx context.Context, in *Input) Observed {
+			var r rec
+			warmup(in, func() { _, _ = svc.SignedBeaconBlock(ctx, &api.SignedBeaconBlockOpts{Block: "head"}) })
+			r.start = time.Now()
+			resp, err := svc.SignedBeaconBlock(ctx, &api.SignedBeaconBlockOpts{Block: "head"})
+			if r.finish(err, err == nil && (resp == nil || resp.Data == nil)) {
+				return r.obs
+			}
+			r.done(valID(in, uint64(resp.Data.Phase0.Message.ProposerIndex), func(int) any { return resp.Data }, func(i int) any { return buildBlock(in, i) }))
+			return r.obs
 		}
-		done(valID(in, uint64(resp.Data.Phase0.Message.ProposerIndex), func(int) any { return resp.Data }, func(i int) any { return buildBlock(in, i) }))
 	default:
-		return Observed{Res: "panic", Note: "unknown strategy " + in.Strategy}
+		return fail(errors.New("unknown strategy " + in.Strategy))
 	}
-	return obs
+	return invoke, nil
 }
 
-func runCase(t *testing.T, in *Input) (obs Observed) {
+// sequence lists the calls made on the service instance of an input: its earlier calls, then the
+// input itself.  What belongs to the instance (strategy, timeout, chain parameters, threshold, cache,
+// log level) is the input's; an earlier call keeps its own slot, contents and node behaviours.
+func sequence(in *Input) []*Input {
+	seq := make([]*Input, 0, len(in.Prior)+1)
+	for i := range in.Prior {
+		c := in.Prior[i]
+		c.Prior = nil
+		c.Strategy, c.Timeout, c.SPE, c.Threshold, c.Cache, c.Trace = in.Strategy, in.Timeout, in.SPE, in.Threshold, in.Cache, in.Trace
+		if len(c.Provs) != len(in.Provs) {
+			panic("an earlier call has another number of nodes")
+		}
+		seq = append(seq, &c)
+	}
+	last := *in
+	last.Prior = nil
+	return append(seq, &last)
+}
+
+// runCase makes the calls of an input on one service instance inside one bubble and returns what
+// each call returned (the input's own call is the last).
+func runCase(t *testing.T, in *Input) (all []Observed) {
+	seq := sequence(in)
 	scripts := make([]*script, len(in.Provs))
 	for i := range in.Provs {
-		scripts[i] = &script{in: in, idx: i}
+		scripts[i] = &script{seq: seq, idx: i, calls: make([]atomic.Int32, len(seq))}
+	}
+	all = make([]Observed, len(seq))
+	made := 0
+	panicked := func(r any) {
+		for k := made; k < len(all); k++ {
+			all[k] = Observed{Res: "panic", Note: fmt.Sprint(r)}
+		}
+		made = len(all)
 	}
 	defer func() {
 		// a deadlocked bubble (a goroutine of the strategy left blocked for ever) panics here
 		if r := recover(); r != nil {
-			obs = Observed{Res: "panic", Note: fmt.Sprint(r)}
+			made = 0
+			panicked(r)
 		}
-		obs.Calls = make([]int32, len(scripts))
-		for i, s := range scripts {
-			obs.Calls[i] = s.calls.Load()
+		for k := range all {
+			all[k].Calls = make([]int32, len(scripts))
+			for i, s := range scripts {
+				all[k].Calls[i] = s.calls[k].Load()
+			}
 		}
 	}()
 	synctest.Test(t, func(t *testing.T) {
 		defer func() {
 			if r := recover(); r != nil {
-				obs = Observed{Res: "panic", Note: fmt.Sprint(r)}
+				panicked(r)
 			}
 		}()
-		obs = call(context.Background(), in, scripts)
-		// the fake clock stops when this function returns: let every node that ignores its
-		// context finish first
+		ctx := context.Background()
+		ct := mocks.NewChainTime(in.SPE)
+		ct.SetSlot(uint64(int64(seq[0].Slot) + seq[0].NowOff))
+		invoke, bad := newInvoker(ctx, in, scripts, ct)
+		if bad != nil {
+			for k := range all {
+				all[k] = *bad
+			}
+			made = len(all)
+			return
+		}
 		rest := time.Duration(in.Timeout)
-		for _, p := range in.Provs {
-			if d := time.Duration(p.T); d > rest {
-				rest = d
+		for k, c := range seq {
+			if k > 0 && c.Gap > 0 {
+				time.Sleep(time.Duration(c.Gap))
+			}
+			for _, s := range scripts {
+				s.cur.Store(int32(k))
+			}
+			ct.SetSlot(uint64(int64(c.Slot) + c.NowOff))
+			all[k] = invoke(context.WithValue(ctx, callKey{}, int32(k)), c)
+			made = k + 1
+			for _, p := range c.Provs {
+				if d := time.Duration(p.T); d > rest {
+					rest = d
+				}
 			}
 		}
+		// the fake clock stops when this function returns: let every node that ignores its
+		// context finish first
 		time.Sleep(rest + time.Second)
 		synctest.Wait()
 	})
-	return obs
+	return all
 }
 
 // ---------------------------------------------------------------------------------------------
@@ -704,7 +881,7 @@ func rawTerm(in *Input, vid int) string {
 	v := in.Values[vid]
 	switch family(in.Strategy) {
 	case "att":
-		return App("RAtt", Bool(v.Nil), Bool(v.NilTarget), N(in.Slot), N(v.Source), N(v.Target), N(v.Root))
+		return App("RAtt", Bool(v.Nil), Bool(v.NilTarget), N(attSlot(in, v)), N(v.Source), N(v.Target), N(v.Root))
 	case "agg":
 		return App("RAgg", Bool(v.Nil), N(v.Set), N(v.Len))
 	case "prop":
@@ -879,6 +1056,136 @@ func genValue(r *Rand, in *Input, valid bool) Value {
 	}
 }
 
+// genForeignSlot: attestation data for another slot than the requested one.
+func genForeignSlot(r *Rand, in *Input, later bool) Value {
+	spe := int64(in.SPE)
+	epoch := in.Slot / in.SPE
+	pos := int64(in.Slot % in.SPE)
+	v := Value{Root: uint64(r.Range(1, 5))}
+	behind := func() {
+		// a head the cache knows must not be later than the data's slot (the score's 1+slot-head is
+		// unsigned): such a value has a head root of its own (6 + its index)
+		v.Root = uint64(6 + len(in.Values))
+		if later {
+			// a later call on an instance: its cache is fixed; a root it does not know
+			v.Root += 20
+			return
+		}
+		if r.Chance(2, 3) {
+			in.Cache = append(in.Cache, [2]uint64{v.Root, attSlot(in, v) - uint64(r.Intn(4))})
+		}
+	}
+	switch r.Intn(8) {
+	case 0, 1, 2: // a later epoch, self-consistent: higher target, higher score
+		v.SlotOff = []int64{spe, spe - pos, 2 * spe}[r.Intn(3)]
+		v.Target = attSlot(in, v) / in.SPE
+		v.Source = v.Target - uint64(r.Range(0, 1)) - 1
+		if v.Source < epoch {
+			v.Source = epoch
+		}
+	case 3, 4: // an earlier epoch, self-consistent
+		v.SlotOff = -[]int64{spe, pos + 1}[r.Intn(2)]
+		v.Target = attSlot(in, v) / in.SPE
+		v.Source = v.Target - 1
+		behind()
+	case 5: // another slot of the duty's epoch: acceptable
+		v.SlotOff = int64(r.Intn(int(in.SPE))) - pos
+		v.Target, v.Source = epoch, epoch-1
+		if v.SlotOff < 0 {
+			behind()
+		}
+	case 6: // a slot of a later epoch with the duty's target epoch: passes the target-epoch rule
+		v.SlotOff = spe
+		v.Target, v.Source = epoch, epoch-1
+	default: // a slot of an earlier epoch with the duty's target epoch
+		v.SlotOff = -(pos + 1)
+		v.Target, v.Source = epoch, epoch-uint64(r.Range(1, 2))
+		behind()
+	}
+	return v
+}
+
+// minorityFirst rewrites the nodes of a majority case: a few nodes report one value early, more
+// nodes another value later (all within the timeout), the rest fail, stay silent or are late.  The
+// threshold of attestationdata/majority is at most the early count, i.e. below a strict majority
+// of the nodes: the early value must not be taken before the later, more frequent one is in.
+func minorityFirst(r *Rand, in *Input, fixed int) bool {
+	if fixed != 0 && fixed < 3 {
+		return false
+	}
+	T, S := in.Timeout, in.Timeout/2
+	att := template(in.Strategy) == "majatt"
+	// two distinct acceptable values at indices 0 and 1
+	if att {
+		v0, v1 := genValue(r, in, true), genValue(r, in, true)
+		rest := append([]Value{}, in.Values...)
+		in.Values = append([]Value{v0, v1}, rest...)
+	} else {
+		a := uint64(r.Range(1, 5))
+		b := a%5 + 1
+		in.Values = []Value{{Root: a}, {Root: b}}
+	}
+	n := r.Range(3, 6)
+	if fixed != 0 {
+		n = fixed
+	}
+	early := r.Range(1, (n-1)/2)
+	late := r.Range(early+1, n-early)
+	if r.Chance(1, 6) {
+		late = early // a tie between the early and the late value
+	}
+	used := map[int64]bool{}
+	pick := func(lo, hi int64) int64 {
+		for {
+			t := lo + int64(r.Intn(int((hi-lo)/ms)+1))*ms + int64(r.Intn(3))
+			if !used[t] && t != S && t != T && t > 0 {
+				used[t] = true
+				return t
+			}
+		}
+	}
+	var provs []Prov
+	for i := 0; i < early; i++ {
+		provs = append(provs, Prov{T: pick(ms, S/4), Beh: "respond", Val: 0})
+	}
+	lateLo, lateHi := S/4+ms, S-2*ms
+	if att && r.Chance(1, 2) {
+		lateLo, lateHi = S+ms, T-2*ms // attestationdata/majority: the soft timeout decides nothing
+	}
+	for i := 0; i < late; i++ {
+		provs = append(provs, Prov{T: pick(lateLo, lateHi), Beh: "respond", Val: 1})
+	}
+	for len(provs) < n {
+		switch r.Intn(4) {
+		case 0:
+			provs = append(provs, Prov{Beh: "never"})
+		case 1:
+			provs = append(provs, Prov{T: pick(ms, T-ms), Beh: "error", Err: "plain"})
+		case 2:
+			provs = append(provs, Prov{T: pick(T+ms, 2*T), Beh: "respond", Val: r.Intn(len(in.Values))})
+		default:
+			provs = append(provs, Prov{T: pick(ms, T-ms), Beh: "respond", Val: r.Intn(len(in.Values))})
+		}
+	}
+	// node order is immaterial to the strategy (a Go map) but not to a reader
+	for i := len(provs) - 1; i > 0; i-- {
+		j := r.Intn(i + 1)
+		provs[i], provs[j] = provs[j], provs[i]
+	}
+	in.Provs = provs
+	if att {
+		switch r.Intn(6) {
+		case 0:
+			in.Threshold = 0
+		case 1:
+			in.Threshold = early + 1
+		default:
+			in.Threshold = r.Range(1, early)
+		}
+	}
+	return true
+}
+
 // hasRules: the strategy rejects some responses
 func hasRules(st string) bool {
 	switch st {
@@ -898,20 +1205,43 @@ func nilOK(st string) bool {
 }
 
 func gen(r *Rand) Input {
-	var in Input
-	for {
-		in = gen1(r)
-		if scheduleCount(&in) <= 3000 {
-			return in
+	one := func(prev *Input) Input {
+		for {
+			in := gen1(r, prev)
+			if scheduleCount(&in) <= 3000 {
+				return in
+			}
 		}
 	}
+	in := one(nil)
+	// family: 2-4 calls in a row on ONE service instance (other slots and epochs, or the same slot
+	// again; nodes that were slow, failing or silent in an earlier call; earlier calls that ran
+	// into their timeout; back to back or after a pause)
+	if r.Chance(1, 6) {
+		var prior []Input
+		for k := r.Range(1, 3); k > 0; k-- {
+			next := one(&in)
+			in.Prior = nil
+			prior = append(prior, in)
+			in = next
+		}
+		in.Prior = prior
+		in.Tags = append(in.Tags, "calls-in-a-row")
+		sort.Strings(in.Tags)
+	}
+	return in
 }
 
-func gen1(r *Rand) Input {
+// gen1 draws one call; with prev, a further call on the service instance that served prev: what
+// belongs to the instance stays, the slot does not go back.
+func gen1(r *Rand, prev *Input) Input {
 	in := Input{Strategy: strategies[r.Intn(len(strategies))], SPE: 32}
 	// the templates with a decision to get wrong are drawn more often
 	if r.Chance(1, 3) {
 		in.Strategy = []string{"AttBest", "AttMajority", "AggBest", "PropBest", "ContribBest", "RootLatest", "RootMajority"}[r.Intn(7)]
+	}
+	if prev != nil {
+		in.Strategy = prev.Strategy
 	}
 	tp := template(in.Strategy)
 	switch r.Intn(5) {
@@ -926,6 +1256,9 @@ func gen1(r *Rand) Input {
 	default:
 		in.Timeout = 2000 * ms
 	}
+	if prev != nil {
+		in.Timeout = prev.Timeout
+	}
 	T, S := in.Timeout, in.Timeout/2
 	if r.Chance(1, 8) {
 		in.SPE = uint64(r.Range(1, 64))
@@ -936,9 +1269,16 @@ func gen1(r *Rand) Input {
 	if r.Chance(1, 2) {
 		n = r.Range(2, 4)
 	}
+	if prev != nil {
+		in.SPE, in.Trace, n = prev.SPE, prev.Trace, len(prev.Provs)
+		spe := in.SPE
+		in.Slot = prev.Slot + []uint64{0, 1, 1, spe - prev.Slot%spe, spe, spe, 2 * spe}[r.Intn(7)]
+		in.Cache = prev.Cache
+		in.Gap = []int64{0, 0, ms, T / 2, T, 3 * T}[r.Intn(6)]
+	}
 
 	// cache: roots 1..5, most known, at most 1024 slots behind the duty slot
-	for root := uint64(1); root <= 5; root++ {
+	for root := uint64(1); root <= 5 && prev == nil; root++ {
 		if r.Chance(1, 6) {
 			continue // unknown to the cache
 		}
@@ -992,6 +1332,26 @@ func gen1(r *Rand) Input {
 		tags["invalid-high-scorer"] = true
 	}
 
+	// family: a node that answers for ANOTHER slot than the one asked (it is ahead, behind, or
+	// mis-routes the request).  Its data is self-consistent (target epoch = epoch of ITS slot) and so
+	// has the wrong target epoch for the duty, or carries the duty's target epoch with a foreign slot
+	if family(in.Strategy) == "att" && r.Chance(1, 3) {
+		k := r.Range(1, 2)
+		for i := 0; i < k; i++ {
+			in.Values = append(in.Values, genForeignSlot(r, &in, prev != nil))
+		}
+		tags["foreign-slot"] = true
+	}
+	// the duty slot is not the chain's current slot (late duty at an epoch boundary, early request)
+	if r.Chance(1, 6) {
+		in.NowOff = []int64{int64(in.SPE), -int64(in.SPE), 1, -1, 2 * int64(in.SPE)}[r.Intn(5)]
+		tags["now-differs"] = true
+	}
+	// the service instance has served another request before this one
+	if r.Chance(1, 8) {
+		in.Warm = true
+	}
+
 	// times
 	grid := []int64{1 * ms, 7 * ms, S - ms, S - 1, S + 1, S + ms, (S + T) / 2, T - ms, T - 1, T + 1, T + ms, 2 * T}
 	ties := r.Chance(1, 6)
@@ -1042,7 +1402,19 @@ func gen1(r *Rand) Input {
 		}
 		in.Provs = append(in.Provs, p)
 	}
-	if tp == "majatt" {
+	minority := false
+	if (tp == "majatt" || tp == "majroot") && r.Chance(1, 3) {
+		fixed := 0
+		if prev != nil {
+			fixed = n
+		}
+		minority = minorityFirst(r, &in, fixed)
+		if minority {
+			tags["minority-first"] = true
+			n = len(in.Provs)
+		}
+	}
+	if tp == "majatt" && !minority {
 		switch r.Intn(4) {
 		case 0:
 			in.Threshold = 0
@@ -1069,6 +1441,9 @@ func gen1(r *Rand) Input {
 			}
 			tags["threshold-edge"] = true
 		}
+	}
+	if prev != nil {
+		in.Threshold = prev.Threshold
 	}
 	if tp == "first" {
 		limitFirstTies(&in)
@@ -1140,6 +1515,12 @@ func structuralTags(in *Input) []string {
 	if in.Trace {
 		add("trace-level")
 	}
+	if in.Warm {
+		add("warm-instance")
+	}
+	if len(in.Prior) > 0 {
+		add("after-earlier-calls")
+	}
 	return tags
 }
 
@@ -1156,39 +1537,56 @@ func nontrivial(in *Input) bool {
 func TestC07(t *testing.T) {
 	zerologger.Logger = zerolog.New(io.Discard)
 	col := NewCollector("C07", "Check.C07",
-		"one call of one of the 14 strategies with 1-6 scripted nodes (content, error, silence; latencies around the soft and hard timeouts) in a synctest bubble; non-trivial = at least one node answers with content before the hard timeout; distinct by full input text")
+		"one call of one of the 14 strategies with 1-6 scripted nodes (content, error, silence; latencies around the soft and hard timeouts; answers for another slot) in a synctest bubble, alone or as one of 2-4 calls in a row on one service instance (one case per call, with the calls made before it); non-trivial = at least one node answers with content before the hard timeout; distinct by full input text")
 	n := EnvInt("VERIF_N", 1500)
 	var ins []Input
 	for _, in := range LoadInputs[Input]("C07") {
 		in.Tags = append(in.Tags, "corpus")
 		ins = append(ins, in)
 	}
-	rng := NewRand(Seed())
+	// NewRand(k+1) is NewRand(k) advanced by one draw (the state is seed*gamma and every draw adds
+	// gamma), so with one Fork per input "another seed" would be the same inputs shifted by one.
+	// A fork of the seeded generator starts from a hashed state instead: seeds are unrelated.
+	rng := NewRand(Seed()).Fork()
 	for i := 0; i < n; i++ {
 		ins = append(ins, gen(rng.Fork()))
 	}
 	for i := range ins {
-		in := &ins[i]
-		obs := runCase(t, in)
-		col.Count("strategy:" + in.Strategy)
-		col.Count(fmt.Sprintf("nodes:%d", len(in.Provs)))
-		col.Count("result:" + obs.Res)
-		for _, p := range in.Provs {
-			col.Count("behaviour:" + p.Beh)
-			if p.Beh == "respond" {
-				v := in.Values[p.Val]
-				if v.Nil || v.NilTarget || (family(in.Strategy) == "att" && v.Target != in.Slot/in.SPE) ||
-					(family(in.Strategy) == "prop" && (v.Version == 0 || v.Version > 5 || (v.Version >= 3 && v.Fee != 1))) {
-					col.Count("content:irregular")
+		whole := &ins[i]
+		observed := runCase(t, whole)
+		seq := sequence(whole)
+		if len(seq) > 1 {
+			col.Count(fmt.Sprintf("calls-on-one-instance:%d", len(seq)))
+		}
+		for k := range seq {
+			// one case per call: the call with the calls made before it on the same instance
+			in := seq[k]
+			for q := 0; q < k; q++ {
+				c := *seq[q]
+				c.Prior = nil
+				in.Prior = append(in.Prior, c)
+			}
+			obs := observed[k]
+			col.Count("strategy:" + in.Strategy)
+			col.Count(fmt.Sprintf("nodes:%d", len(in.Provs)))
+			col.Count("result:" + obs.Res)
+			for _, p := range in.Provs {
+				col.Count("behaviour:" + p.Beh)
+				if p.Beh == "respond" {
+					v := in.Values[p.Val]
+					if v.Nil || v.NilTarget || (family(in.Strategy) == "att" && v.Target != in.Slot/in.SPE) ||
+						(family(in.Strategy) == "prop" && (v.Version == 0 || v.Version > 5 || (v.Version >= 3 && v.Fee != 1))) {
+						col.Count("content:irregular")
+					}
 				}
 			}
+			if obs.Res == "panic" {
+				col.Note(fmt.Sprintf("case %d (%s): %s", col.NextID(), in.Strategy, obs.Note))
+			}
+			id := col.NextID()
+			col.Add(Case{Term: term(id, in, obs), Nontrivial: nontrivial(in), Tags: structuralTags(in),
+				Sample: map[string]any{"input": in, "observed": obs}})
 		}
-		if obs.Res == "panic" {
-			col.Note(fmt.Sprintf("case %d (%s): %s", col.NextID(), in.Strategy, obs.Note))
-		}
-		id := col.NextID()
-		col.Add(Case{Term: term(id, in, obs), Nontrivial: nontrivial(in), Tags: structuralTags(in),
-			Sample: map[string]any{"input": in, "observed": obs}})
 	}
 	if err := col.Flush(); err != nil {
 		t.Fatal(err)
